@@ -35,7 +35,7 @@ ASSUMPTIONS = [
     "finding in three regimes (no neutrals / one charge type / both charges with < 18 neutrals); in the >= 18 "
     "neutral regime it would be reported as a violation",
 ]
-REQUIRED = {"all": ["longer_than_1000", "minority_block_in_a_long_majority_run", "clamp_observed", "sentinel_observed", "ratio_in_unit_interval", "cached_dmax_path",
+REQUIRED = {"all": ["longer_than_1000", "permutant_asked_among_the_calls", "minority_block_in_a_long_majority_run", "clamp_observed", "sentinel_observed", "ratio_in_unit_interval", "cached_dmax_path",
                     "maximiser_cases", "hill_climb_cases_ge18_neutrals", "ordered_composition_cases", "sweep_compositions", "unbalanced_composition_cases"]}
 LC = {"quick": 10, "thorough": 12}
 LP = {"quick": 9, "thorough": 11}
@@ -148,6 +148,9 @@ def observe(rep, S, seq, order_seed):
     rng = random.Random(order_seed)
     obj = S["SP"](seq)
     ops = ["kappa", "delta", "dmax"] * 2
+    if rng.random() < 0.35 and len(seq) <= 80:
+        ops.append("dmax_with_permutant")
+        rep.cnt("permutant_asked_among_the_calls")
     rng.shuffle(ops)
     vals = {"kappa": [], "delta": [], "dmax": []}
     seen_dmax_cached = False
@@ -157,6 +160,10 @@ def observe(rep, S, seq, order_seed):
             seen_dmax_cached = True
         elif op == "delta":
             vals["delta"].append(obj.get_delta())
+        elif op == "dmax_with_permutant":
+            pv = obj.get_deltaMax(True)
+            vals["dmax"].append(pv[0] if isinstance(pv, tuple) else pv)
+            seen_dmax_cached = True
         else:
             if seen_dmax_cached or vals["dmax"]:
                 rep.cnt("cached_dmax_path")
